@@ -37,8 +37,10 @@ func VerifConvertArgs(n int) {
 	for i := 0; i < ntr; i++ {
 		ft.TrailingPositionals = append(ft.TrailingPositionals, RBSParam{Type: t})
 	}
-	rk := []string{"b", "a"}
-	ok := []string{"d", "c"}
+	// keyword names: optional names after, between and before the required ones
+	ns := verifapi.Concrete(verifapi.Int("names", 0, 3))
+	rk := [][]string{{"b", "a"}, {"m", "a"}, {"y", "x"}, {"k", "k1"}}[ns]
+	ok := [][]string{{"d", "c"}, {"z", "c"}, {"b", "a"}, {"j", "k0"}}[ns]
 	ft.RequiredKeywords = map[string]RBSParam{}
 	ft.OptionalKeywords = map[string]RBSParam{}
 	nk := verifapi.Concrete(verifapi.Int("nkw", 0, 2))
